@@ -242,19 +242,28 @@ class MibCompiler(object):
                 try:
                     fileInfo, fileData = source.getData(mibname)
 
-                    if fileInfo.path and (fileInfo.path, fileInfo.name) in parsedFiles:
+                    fileKey = source, fileInfo.path, fileInfo.name
+
+                    if fileInfo.path and fileKey in parsedFiles:
                         # found under another name before (-MIB suffix ...)
                         debug.logger & debug.flagCompiler and debug.logger(
                             '%s has been read before' % fileInfo.path)
 
                         if mibname in mibnames:
+                            if mibname in failedMibs:
+                                # an earlier source failed on this name
+                                del failedMibs[mibname]
+
+                                if processed.get(mibname) == statusFailed:
+                                    del processed[mibname]
+
                             break
 
                         continue
 
                     mibTrees = self._parser.parse(fileData)
 
-                    parsedFiles.add((fileInfo.path, fileInfo.name))
+                    parsedFiles.add(fileKey)
 
                     if not mibTrees:
                         # nothing but white space or comments in there:
@@ -353,6 +362,14 @@ class MibCompiler(object):
                         debug.logger & debug.flagCompiler and debug.logger(
                             'no module %s in the file found at %s' % (mibname, source))
                         continue
+
+                    if mibname in failedMibs:
+                        # an earlier source failed on this name, this one
+                        # answers it with modules that are known already
+                        del failedMibs[mibname]
+
+                        if processed.get(mibname) == statusFailed:
+                            del processed[mibname]
 
                     break
 
